@@ -12,7 +12,9 @@ KINDS_QUICK = [("retry-outcomes", "retry", 2400), ("burst-discard", "burst", 120
                ("non-cooperative", "stubborn", 400), ("cancelled-dispatcher-context", "pcancel", 1200),
                ("retry-until-success(huge R)", "hugeR", 200), ("sub-millisecond-timeouts", "tinyT", 300),
                # several pools in one process, literal option lists (defaults omitted, non-positive values): ants_mp.py
-               ("multi-pool-option-lists", "mp:mixed", 600)]
+               ("multi-pool-option-lists", "mp:mixed", 600),
+               # the pool is dropped and collected while its inner goroutines are all busy with overrunning handlers
+               ("pool-dropped-while-inner-goroutines-busy", "mp:dropbusy", 120)]
 
 
 def monitors(r):
@@ -45,6 +47,8 @@ def process(chk, stream, results):
 
 
 def gen_lines(rng, kind, n):
+    if kind == "mp:dropbusy":
+        return [mp.script_line(*mp.gen_drop_busy(rng)) for _ in range(n)]
     if kind.startswith("mp:"):   # several pools per process, literal option lists (ants_mp.py)
         return [mp.script_line(*mp.gen_script(rng, kind[3:])) for _ in range(n)]
     return [ac.script_line(*ac.gen_script(rng, kind)) for _ in range(n)]
